@@ -30,7 +30,14 @@ KINDS = ("n", "n1", "2n")
 # const: the constant map g(y) = c (M = 0): its first evaluation IS the fixed point
 ROOT_FAMILIES = ("affine", "dyadic", "tanh02", "tanh06", "caffine", "const")
 MIN_FAMILIES = ("quad", "dquad", "lcosh")
-S_OF = {"affine": 0.5, "dyadic": 0.5, "tanh02": 0.2, "tanh06": 0.6, "caffine": 0.5, "const": 0.0,
+# families outside the default tuples (enumerated by dedicated blocks of C03):
+#   atan   g(y) = y - atan(y - c) / 2: unique fixed point c, |g'| = 1 - 0.5 / (1 + d^2) < 1 everywhere but -> 1 far
+#          away (full quasi-Newton steps from a far guess overshoot: the line search has to backtrack repeatedly)
+#   expand g(y) = c + M d + (sin(d + a) - sin(a)) / 2 with M symmetric, spectrum in [-2.2, -1.8]: NOT a contraction
+#          (plain iteration diverges) but y - g(y) has a well-conditioned Jacobian in [2.3, 3.7]; Anderson
+#          acceleration and the root finders converge
+EXTRA_FAMILIES = ("atan", "expand")
+S_OF = {"atan": 0.5, "expand": 2.7, "affine": 0.5, "dyadic": 0.5, "tanh02": 0.2, "tanh06": 0.6, "caffine": 0.5, "const": 0.0,
         "quad": 0.5, "dquad": 0.5, "lcosh": 0.6}
 
 
@@ -106,6 +113,11 @@ class Problem:
         elif family in ("tanh02", "tanh06"):
             P["W"] = _unit_norm_matrix(n, cdt, g, lo=0.5)
             P["a"] = 0.4 * randn(self.shape, torch.float64, g)
+        elif family == "atan":
+            pass
+        elif family == "expand":
+            P["M"] = -_sym_spectrum(n, 1.8, 2.2, g)
+            P["a"] = 0.4 * randn(self.shape, torch.float64, g)
         elif family == "quad":
             P["H"] = _sym_spectrum(n, 1 - s, 1 + s, g)
         elif family == "dquad":
@@ -130,6 +142,10 @@ class Problem:
             return q["c"] + lin(q["M"], d, kind)          # s is folded into M
         if fam in ("tanh02", "tanh06"):
             return q["c"] + s * (torch.tanh(lin(q["W"], d, kind) + q["a"]) - torch.tanh(q["a"]))
+        if fam == "atan":
+            return q["c"] + d - 0.5 * torch.atan(d)
+        if fam == "expand":
+            return q["c"] + lin(q["M"], d, kind) + 0.5 * (torch.sin(d + q["a"]) - torch.sin(q["a"]))
         raise KeyError(fam)
 
     def f(self, y, *p):
@@ -163,9 +179,15 @@ class Problem:
     # ---- bounds
     def mu(self):
         """lower bound on the smallest singular value of the Jacobian of the root form / of the Hessian"""
+        if self.family == "expand":
+            return 2.3
         return 1.0 - self.s
 
     def lip(self):
+        if self.family == "expand":
+            return 3.7
+        if self.family == "atan":
+            return 0.5
         return 1.0 + self.s
 
     def guess(self, name):
@@ -183,6 +205,10 @@ class Problem:
             return torch.zeros_like(ys)
         if name == "far":
             return (ys + 3.0 * u).contiguous()
+        if name in ("u4", "u10", "u15"):
+            # the same offset in every component: all components run the same scalar iteration, the Jacobian of a
+            # component-wise map stays a multiple of the identity (perfectly conditioned) along the whole path
+            return (ys + float(name[1:])).contiguous()
         if name == "near":
             return (ys + (2.0 ** -10) * u).contiguous()
         if name == "exact":
